@@ -125,3 +125,13 @@ TECHNIQUE.update({
     "C07": "provenance (origin tracing over MIR with ?/clone plumbing peeled) of every PDU aggregate's fields; must-pass-through bracket rule; single-writer rules",
     "C08": "provenance of every SegmentRequestForm / NAK PDU field over MIR + guarded construction (world-set dataflow)",
 })
+
+PROPS.update({
+    "C05": {
+        "decided": "Sibling agreement of encode / decode / encoded_len: (L1) for every field the encoder packs into a byte the decoder extracts it at the same shift with a mask aligned with that shift and covering every value the encoder can put there (value ranges from the field's type, enum discriminants and constant-return summaries), encoder masks cut no possible value, fields packed into one byte do not overlap; (L4) every variant is written with the tag under which the decoder builds it and every tagged variant has a decoder arm; (L3) the length announced by encoded_len is the length of what encode emits, per variant.",
+        "not_decided": "Equality of all non-bit-field payload for all values (ordering of same-typed LV items, value-dependent truncation beyond the stated wire limits); canonicity of accepted input.",
+    },
+})
+TECHNIQUE.update({
+    "C05": "codec extraction from MIR expressions: bit-field leaves of encoders vs masked extractions in the backward slice of each decoded field, inverse tag relations, symbolic length forms",
+})
